@@ -26,16 +26,20 @@ pub struct Cfg {
     /// instead of running the strategy, the tracer thread publishes these scripted rounds through
     /// the same handler (`verif_apply_round`): shapes whose path length changes between rounds
     pub script: Vec<u8>,
+    /// the tracer's flow limit (0 = flow tracking off)
+    pub max_flows: usize,
 }
 
 /// Scripted round shapes: 0 = target found at 2 with probes for ttl 3 and 4 still in flight,
-/// 1 = four answering hops, 2 = another ECMP branch (new flow) of length 3.
+/// 1 = four answering hops, 2 = another ECMP branch (new flow) of length 3, 3 = nothing answered
+/// (three probes in flight, path length 0).
 fn script_round(kind: u8, i: usize) -> RoundRec {
     use stateexp::{Out, Shape};
     let c = |sel: u8| Out::C(2_000_000 + 1000 * i as u64, sel, None, None);
     let shape = match kind {
         0 => Shape { first_ttl: 1, outs: vec![c(1), c(1), Out::A, Out::A], largest_ttl: Some(2) },
         1 => Shape { first_ttl: 1, outs: vec![c(1), c(1), c(1), c(1)], largest_ttl: None },
+        3 => Shape { first_ttl: 1, outs: vec![Out::A, Out::A, Out::A], largest_ttl: Some(0) },
         _ => Shape { first_ttl: 1, outs: vec![c(1), c(2), c(1)], largest_ttl: None },
     };
     stateexp::build(&shape, i, (i as u16) * 16)
@@ -83,7 +87,7 @@ impl Drop for EndGuard {
 
 pub fn run_once(cfg: &Cfg, chooser: Chooser) -> Outcome {
     let cell = Cell { proto: Proto::Icmp, v6: false, strategy: MultipathStrategy::Classic, ports: Ports::None, privileged: true, ext: false };
-    let p = TraceParams { rounds: cfg.rounds, max_flows: 4, max_samples: 8, ..TraceParams::default() };
+    let p = TraceParams { rounds: cfg.rounds, max_flows: cfg.max_flows, max_samples: 8, ..TraceParams::default() };
     let tracer = drive::build_tracer(&cell, &p).expect("MACHINERY: tracer build");
     let nthreads = 1 + cfg.readers.len() + usize::from(cfg.clears > 0);
     let sched = Sched::new(nthreads, chooser);
@@ -265,7 +269,7 @@ pub fn linearizable(o: &Outcome) -> Result<Vec<usize>, String> {
 }
 
 fn cfg_json(c: &Cfg) -> Value {
-    json!({"rounds": c.rounds, "readers": c.readers, "clears": c.clears, "fatal_at_select": c.fatal_at_select, "script": c.script})
+    json!({"rounds": c.rounds, "readers": c.readers, "clears": c.clears, "fatal_at_select": c.fatal_at_select, "script": c.script, "max_flows": c.max_flows})
 }
 
 pub fn judge(o: &Outcome) -> Vec<(String, String)> {
@@ -297,25 +301,32 @@ pub fn run(args: &Args) -> i32 {
     let mut rep = Report::new("C20", tier, "model_checking");
     let cfgs: Vec<Cfg> = match tier {
         Tier::Quick => vec![
-            Cfg { rounds: 2, readers: vec![2], clears: 1, fatal_at_select: None, script: vec![] },
-            Cfg { rounds: 3, readers: vec![2], clears: 1, fatal_at_select: None, script: vec![] },
-            Cfg { rounds: 2, readers: vec![1, 1], clears: 1, fatal_at_select: None, script: vec![] },
-            Cfg { rounds: 2, readers: vec![2], clears: 1, fatal_at_select: Some(9), script: vec![] },
+            Cfg { rounds: 2, readers: vec![2], clears: 1, fatal_at_select: None, script: vec![], max_flows: 4 },
+            Cfg { rounds: 3, readers: vec![2], clears: 1, fatal_at_select: None, script: vec![], max_flows: 4 },
+            Cfg { rounds: 2, readers: vec![1, 1], clears: 1, fatal_at_select: None, script: vec![], max_flows: 4 },
+            Cfg { rounds: 2, readers: vec![2], clears: 1, fatal_at_select: Some(9), script: vec![], max_flows: 4 },
             // scripted publisher: the path grows after a clear / a new flow appears
-            Cfg { rounds: 2, readers: vec![2], clears: 1, fatal_at_select: None, script: vec![0, 1] },
-            Cfg { rounds: 3, readers: vec![2], clears: 1, fatal_at_select: None, script: vec![0, 2, 1] },
+            Cfg { rounds: 2, readers: vec![2], clears: 1, fatal_at_select: None, script: vec![0, 1], max_flows: 4 },
+            Cfg { rounds: 3, readers: vec![2], clears: 1, fatal_at_select: None, script: vec![0, 2, 1], max_flows: 4 },
+            // the state's boundary shapes: flow tracking off, rounds in which nothing answered
+            Cfg { rounds: 2, readers: vec![2], clears: 1, fatal_at_select: None, script: vec![3, 3], max_flows: 0 },
+            Cfg { rounds: 3, readers: vec![2], clears: 1, fatal_at_select: None, script: vec![3, 1, 3], max_flows: 1 },
         ],
         Tier::Thorough => vec![
-            Cfg { rounds: 2, readers: vec![2], clears: 1, fatal_at_select: None, script: vec![] },
-            Cfg { rounds: 3, readers: vec![2], clears: 1, fatal_at_select: None, script: vec![] },
-            Cfg { rounds: 3, readers: vec![3], clears: 2, fatal_at_select: None, script: vec![] },
-            Cfg { rounds: 4, readers: vec![3], clears: 2, fatal_at_select: None, script: vec![] },
-            Cfg { rounds: 3, readers: vec![2, 2], clears: 1, fatal_at_select: None, script: vec![] },
-            Cfg { rounds: 2, readers: vec![2], clears: 2, fatal_at_select: Some(9), script: vec![] },
-            Cfg { rounds: 3, readers: vec![2, 1], clears: 1, fatal_at_select: Some(14), script: vec![] },
-            Cfg { rounds: 2, readers: vec![2], clears: 1, fatal_at_select: None, script: vec![0, 1] },
-            Cfg { rounds: 3, readers: vec![3], clears: 2, fatal_at_select: None, script: vec![0, 2, 1] },
-            Cfg { rounds: 4, readers: vec![2, 1], clears: 1, fatal_at_select: None, script: vec![1, 0, 2, 1] },
+            Cfg { rounds: 2, readers: vec![2], clears: 1, fatal_at_select: None, script: vec![], max_flows: 4 },
+            Cfg { rounds: 3, readers: vec![2], clears: 1, fatal_at_select: None, script: vec![], max_flows: 4 },
+            Cfg { rounds: 3, readers: vec![3], clears: 2, fatal_at_select: None, script: vec![], max_flows: 4 },
+            Cfg { rounds: 4, readers: vec![3], clears: 2, fatal_at_select: None, script: vec![], max_flows: 4 },
+            Cfg { rounds: 3, readers: vec![2, 2], clears: 1, fatal_at_select: None, script: vec![], max_flows: 4 },
+            Cfg { rounds: 2, readers: vec![2], clears: 2, fatal_at_select: Some(9), script: vec![], max_flows: 4 },
+            Cfg { rounds: 3, readers: vec![2, 1], clears: 1, fatal_at_select: Some(14), script: vec![], max_flows: 4 },
+            Cfg { rounds: 2, readers: vec![2], clears: 1, fatal_at_select: None, script: vec![0, 1], max_flows: 4 },
+            Cfg { rounds: 3, readers: vec![3], clears: 2, fatal_at_select: None, script: vec![0, 2, 1], max_flows: 4 },
+            Cfg { rounds: 4, readers: vec![2, 1], clears: 1, fatal_at_select: None, script: vec![1, 0, 2, 1], max_flows: 4 },
+            Cfg { rounds: 2, readers: vec![2], clears: 1, fatal_at_select: None, script: vec![3, 3], max_flows: 0 },
+            Cfg { rounds: 3, readers: vec![3], clears: 2, fatal_at_select: None, script: vec![3, 3, 1], max_flows: 0 },
+            Cfg { rounds: 3, readers: vec![2], clears: 1, fatal_at_select: None, script: vec![3, 1, 3], max_flows: 1 },
+            Cfg { rounds: 3, readers: vec![2], clears: 1, fatal_at_select: None, script: vec![], max_flows: 0 },
         ],
     };
     let findings: Mutex<BTreeMap<String, Finding>> = Mutex::new(BTreeMap::new());
@@ -434,6 +445,7 @@ pub fn replay(path: &str) -> i32 {
         clears: c["clears"].as_u64().unwrap() as usize,
         fatal_at_select: c["fatal_at_select"].as_u64().map(|x| x as usize),
         script: c["script"].as_array().map(|a| a.iter().map(|x| x.as_u64().unwrap_or(0) as u8).collect()).unwrap_or_default(),
+        max_flows: c["max_flows"].as_u64().map_or(4, |x| x as usize),
     };
     let schedule: Vec<u16> = r["schedule"].as_array().unwrap().iter().map(|c| c.as_u64().unwrap() as u16).collect();
     let o = run_once(&cfg, Chooser::new(&schedule, 100_000));
